@@ -3,7 +3,7 @@
    downward search for a common factor, which carries fuel. Lexer / grammar / value parsers / regexp compile are
    library code and are covered by the watched input stream of checks/c14.py only. *)
 From Coq Require Import List NArith ZArith Bool Permutation.
-From Pk Require Import Query QuerySort QueryClean QueryOps QueryTotal.
+From Pk Require Import Query QuerySort QueryClean QueryOps QueryTotal QueryInv.
 Import ListNotations.
 Open Scope Z_scope.
 
@@ -27,13 +27,36 @@ Theorem c14_meaning_independent_of_arrival_order :
     val_ok v -> conj_wf c -> Permutation c c' -> eval_conj v (conj_clean c) = eval_conj v (conj_clean c').
 Proof. exact clean_order_independent. Qed.
 
-(* _partial: that the division by the common factor never divides by zero and that the sub-query index of
-   cleanFlagConditions never underflows needs the invariants "no zero factor / distinct sub-queries" for every
-   reachable condition; they are checked by the correspondence runs, not proved. The model takes a sound
-   fall-back on those branches (Query.num_norm1), so C03's theorems do not depend on them. *)
-Theorem c14_no_division_by_zero_partial :
-  forall c : numc, n_sums c = [] -> num_norm1 c = mkNum [] (n_num c).
-Proof. exact num_norm1_nosums. Qed.
+(* no division by zero in cleanNumberConditions. (a) Invariant of every number condition in every set the normaliser
+   builds, for EVERY expression (THEN included): the summands have pairwise different (sub-query, type) keys and no
+   zero factor. (b) On such a condition the merge loop changes nothing and the common factor is positive at every
+   step, so every `%` and `/` of the function has a positive right operand. *)
+Theorem c14_number_conditions_invariant :
+  forall (e : expr) (cs : cset), norm e = Some cs -> cset_num_ok cs.
+Proof. exact norm_num_ok. Qed.
+
+Theorem c14_common_factor_positive :
+  forall c : numc, num_ok c ->
+    match isort nsum_key (n_sums c) with
+    | [] => True
+    | a :: r =>
+        nsum_merge a r = a :: r /\
+        0 < fold_left cf_step (map ns_fac r) (Z.abs (ns_fac a)) /\
+        Forall (fun s => 0 < Z.abs (ns_fac s)) (a :: r)
+    end.
+Proof. exact common_factor_positive. Qed.
+
+(* cleaning keeps the invariant (so it also holds for what And hands to the next clean) *)
+Theorem c14_clean_keeps_invariant :
+  forall c : conj, conj_num_ok c -> conj_num_ok (conj_clean c).
+Proof. exact conj_clean_ok. Qed.
+
+(* _partial: the index arithmetic of cleanFlagConditions (`i -= 2` after removing a duplicate sub-query) is safe
+   because a flag condition never names a sub-query twice; proved here for the conditions a filter produces, the
+   preservation through invert/clean is not proved (checked by the correspondence runs). *)
+Theorem c14_flag_subqueries_distinct_partial :
+  forall a : atom, Forall (Forall flag_subs_ok) (conds_of_atom a).
+Proof. exact conds_of_atom_flag_subs. Qed.
 
 Example c14_fuel_example : cf_search (Z.to_nat 12) 11 12 18 = Some 6.
 Proof. reflexivity. Qed.
